@@ -142,6 +142,19 @@ func c15Selection(rng *rand.Rand, dir string, hostile bool) selection {
 	if rng.Intn(3) == 0 {
 		docs := []string{"", "[e_rsa_fermat_factorization]\nRounds = 3\n", "[e_subj_contains_html_entities]\nSkip = true\n[e_crl_next_update_invalid]\nSubscriberCRL = false\n", "[e_rsa_fermat_factorization]\nRounds = \"many\"\n", "e_subj_orgunit_in_ca_cert = 7\n", "[unrelated]\nx = 1\n"}
 		s.cfgText = docs[rng.Intn(len(docs))]
+		if rng.Intn(4) == 0 {
+			// the same document behind a long preamble of comments and unrelated tables (64 KiB - 3 MiB): a reader with
+			// a bounded buffer sees only the beginning; the library side reads the whole text
+			var sb strings.Builder
+			size := []int{70 << 10, 1<<20 + 10, 3 << 20}[rng.Intn(3)]
+			for k := 0; sb.Len() < size; k++ {
+				fmt.Fprintf(&sb, "# preamble line %06d: this configuration is generated; the lint sections follow at the end\n", k)
+				if k%2000 == 1999 {
+					fmt.Fprintf(&sb, "[unrelated_%d]\nx = %d\n", k, k)
+				}
+			}
+			s.cfgText = sb.String() + s.cfgText
+		}
 		s.hasCfg = true
 		p := filepath.Join(dir, "config.toml")
 		_ = os.WriteFile(p, []byte(s.cfgText), 0o644)
@@ -184,8 +197,20 @@ func c15Selection(rng *rand.Rand, dir string, hostile bool) selection {
 			s.args = []string{"-nameFilter", "^e_", "-includeNames", Inv[0].Name}
 			s.invalid = "nameFilter with name list"
 		case 6:
-			s.args = append(s.args, "-config", filepath.Join(dir, "does-not-exist.toml"))
-			s.invalid = "unreadable configuration"
+			if rng.Intn(2) == 0 {
+				s.args = append(s.args, "-config", filepath.Join(dir, "does-not-exist.toml"))
+				s.invalid = "unreadable configuration"
+			} else {
+				// not TOML - right at the start, or only behind 1.2 MiB of perfectly good comments
+				bad := "[e_rsa_fermat_factorization\nRounds = = 3\n"
+				if rng.Intn(2) == 0 {
+					bad = strings.Repeat("# a long and perfectly good preamble line of a generated configuration file ......\n", 15000) + bad
+				}
+				p := filepath.Join(dir, "malformed.toml")
+				_ = os.WriteFile(p, []byte(bad), 0o644)
+				s.args = append(s.args, "-config", p)
+				s.invalid = fmt.Sprintf("malformed configuration (%d octets)", len(bad))
+			}
 		}
 	}
 	return s
